@@ -2,7 +2,12 @@
 EXTENDS FrameImpl
 \* small chains: a 12-byte header with three units, a 14-byte header with
 \* a unit larger than the buffer, and a file without data
-MC_Files1 == << << [h |-> 12, units |-> << 1, 5, 3 >>] >> >>
-MC_Files2 == << << [h |-> 12, units |-> << 1, 5, 3 >>], [h |-> 14, units |-> << 9, 1 >>] >> >>
-MC_Files3 == << << [h |-> 14, units |-> << 2, 2 >>], [h |-> 12, units |-> << >>], [h |-> 12, units |-> << 7 >>] >> >>
+D == "decode"  I == "integrity"
+MC_Files1 == << << [h |-> 12, units |-> << 1, 5, 3 >>, mode |-> D] >> >>
+MC_Files2 == << << [h |-> 12, units |-> << 1, 5, 3 >>, mode |-> D], [h |-> 14, units |-> << 9, 1 >>, mode |-> D] >> >>
+MC_Files3 == << << [h |-> 14, units |-> << 2, 2 >>, mode |-> D], [h |-> 12, units |-> << >>, mode |-> D], [h |-> 12, units |-> << 7 >>, mode |-> D] >> >>
+\* CheckIntegrity: data larger than the copy buffer, data smaller, no data at all (followed by bytes that are not its own)
+MC_Files4 == << << [h |-> 12, units |-> << 11 >>, mode |-> I] >> >>
+MC_Files5 == << << [h |-> 14, units |-> << 3 >>, mode |-> I] >> >>
+MC_Files6 == << << [h |-> 14, units |-> << >>, mode |-> I] >> >>
 =============================================================================
